@@ -1,17 +1,18 @@
 SPECIFICATION Spec
 CONSTANTS
-  TolNum = 0
-  TolDen = 1
+  TolNum = 390625
+  TolDen = 64
   Scenes <- SceneSet
   MaxIter = 12
   MaxSteps = 30
-  Mode = "intersection"
+  Mode = "penetration"
   Variant = "lib"
-  R = 2
+  R = 1
 INVARIANT CentreOk
 INVARIANT HitIsOverlap
 INVARIANT MissIsNotDeep
 INVARIANT Terminates
 INVARIANT PortalInD
 INVARIANT PortalOnBoundary
+INVARIANT ContactCommonPoint
 INVARIANT PenNeverCapped
